@@ -808,6 +808,19 @@ func (a *analyser) fanout(f *ssa.Function) (list string, notifyArgs []string, se
 	return
 }
 
+// loopHeader: the innermost block that dominates b and is reachable from b (nil: b is in no loop)
+func loopHeader(f *ssa.Function, b *ssa.BasicBlock) *ssa.BasicBlock {
+	var hdr *ssa.BasicBlock
+	for _, x := range f.Blocks {
+		if (x == b && reachable(b, b, nil)) || (x != b && x.Dominates(b) && reachable(b, x, nil)) {
+			if hdr == nil || hdr.Dominates(x) {
+				hdr = x
+			}
+		}
+	}
+	return hdr
+}
+
 // reachable: is `to` reachable from `from` by at least one edge, never entering `avoid`
 func reachable(from, to, avoid *ssa.BasicBlock) bool {
 	seen := map[*ssa.BasicBlock]bool{}
@@ -924,6 +937,24 @@ func (a *analyser) wireReply(all []*ssa.Function) []wireRow {
 				}
 				fld := fieldDesc(fa.X, fa.Field)
 				d := a.eval(fr, st.Val, nil, 0).desc
+				if al, ok := st.Val.(*ssa.Alloc); ok {
+					// `x := value; field: &x` — like Ptr(value) when x is a fresh variable per element; a variable that
+					// lives outside the loop that builds the entries is shared by all of them
+					var val ssa.Value
+					n := 0
+					for _, ref := range *al.Referrers() {
+						if s2, ok := ref.(*ssa.Store); ok && s2.Addr == al {
+							val = s2.Val
+							n++
+						}
+					}
+					if n == 1 {
+						d = "Ptr(" + a.eval(fr, val, nil, 0).desc + ")"
+						if hdr := loopHeader(f, b); hdr != nil && !(hdr.Dominates(al.Block()) && reachable(al.Block(), hdr, nil)) {
+							d = "shared(" + d + ")"
+						}
+					}
+				}
 				if old, dup := sites[fa.X][fld]; dup && old != d {
 					d = "?"
 				}
